@@ -15,7 +15,7 @@ from .sym import short
 
 T = "flussab::text::"
 HELPERS = ["tabs_or_spaces", "newline", "next_newline", "fixed"]
-LOOKS = (A.DR + "request_byte_at_offset", A.DR + "request_byte_at_offset_cold", A.DR + "request_more", A.DR + "request_byte")
+LOOKS = (A.DR + "request_byte_at_offset", A.DR + "request_byte")  # the look-ahead primitive (what it does internally -- cold path, refill -- is its own business: C02, C09)
 FORBIDDEN = ("advance", "advance_with_buf", "advance_unchecked", "set_mark", "set_mark_to_position", "set_chunk_size", "request", "check_io_error")
 
 LF, CR, SP, TAB = 10, 13, 32, 9
@@ -113,10 +113,13 @@ def run(ctx):
         fid = T + h
         fn = facts.fn(fid)
         key = scan.root_key(facts, fid)
-        reach = cg.reach(facts, [key])
+        # the helper's own code and everything it calls, down to (not into) the look-ahead primitive
+        reach = cg.reach_above(facts, [key], set(LOOKS))
         bad = []
         looks = 0
         for k in reach:
+            if norm(facts.inst[k]["def"]) in LOOKS:
+                continue
             for c in facts.inst[k]["calls"]:
                 d = norm(c.get("to_def") or c.get("def") or "")
                 if d.startswith(A.DR) or d.startswith(A.LR):
